@@ -537,3 +537,8 @@ SPECS["C01"]["contracts"] += _EXACT[:2]
 SPECS["C02"]["contracts"] += [_EXACT[2]]
 SPECS["C01"]["level_text"] += ". Added: exactness of the AKAI SAT decode on well-formed chains and get_path along an exactly decoded table (see C07)"
 SPECS["C07"]["not_covered"] = ["AKAI directory runs (reserved-flag sectors) as an exactness contract (bounded exhaustive decode oracle)", "the construct glue that hands the words to the decoders"]
+SPECS["C07"]["contracts"].append("smpl_extract.akai.sat:SegmentAllocationTableAdapter._decode#exact-directory-runs")
+SPECS["C01"]["contracts"].append("smpl_extract.akai.sat:SegmentAllocationTableAdapter._decode#exact-directory-runs")
+SPECS["C07"]["level_text"] += ("; the AKAI directory area: every sector carrying a reserved flag ends up linked to the next sector while that one carries a flag too and ends the run otherwise "
+                               "(second proof over the same decoder, own invariants: the walk never visits a sector twice, a directory run only moves upwards)")
+SPECS["C07"]["not_covered"] = ["the construct glue that hands the table words to the decoders"]
